@@ -1,17 +1,18 @@
 #!/usr/bin/env python3
-"""verify_mutant.py <out-dir of a seeding agent> <A|B> <property id>
+"""verify_mutant.py <out-dir of a seeding agent> <A|B> <property id> [<name under seeded/>]
 Confirms a seeded change independently in a scratch worktree of /repo HEAD: the demonstration passes
 without the change; with it the tree builds, the touched packages' tests pass and the demonstration
 fails. Copies the result to /verif/seeded/<id>-<variant>/ when everything is confirmed."""
 import sys, os, re, json, subprocess, shutil, glob
 
 out, var, pid = sys.argv[1].rstrip("/"), sys.argv[2], sys.argv[3]
+dstvar = sys.argv[4] if len(sys.argv) > 4 else var  # name under /verif/seeded (second round: C, D)
 src = os.path.join(out, var)
 WT = "/tmp/vm-wt-%s%s" % (pid, var)
 ENV = dict(os.environ, GOFLAGS="-mod=mod", GOPROXY="off", GOSUMDB="off", GOTOOLCHAIN="local")
 RUNNABLE = {"pkg/cafs", "pkg/model", "pkg/wal", "pkg/fuse", "pkg/storage/localfs", "pkg/filetracker", "pkg/sidecar/param", "pkg/metrics", "pkg/errors"}
 
-def sh(cmd, cwd=WT, timeout=900):
+def sh(cmd, cwd=WT, timeout=1000):
     try:
         p = subprocess.run(cmd, cwd=cwd, env=ENV, shell=True, stdout=subprocess.PIPE, stderr=subprocess.STDOUT, timeout=timeout)
         return p.returncode, p.stdout.decode("utf-8", "replace")
@@ -52,10 +53,10 @@ try:
         placed.append(dest)
         ddir = os.path.dirname(dest)
         if base == "main.go":
-            run = "timeout 400 go run ./%s" % ddir
+            run = "timeout 900 go run ./%s" % ddir
         else:
             t = re.search(r"-run '?(\w+)'?", note)
-            run = "timeout 400 go test -count=1 %s ./%s/" % (("-run " + t.group(1)) if t else "", ddir)
+            run = "timeout 900 go test -count=1 %s ./%s/" % (("-run " + t.group(1)) if t else "", ddir)
     res["demo_placed"], res["demo_cmd"] = placed, run
     rc0, o0 = sh(run)
     res["demo_without_change"] = "pass" if rc0 == 0 else "FAIL rc=%d: %s" % (rc0, o0[-300:])
@@ -95,7 +96,7 @@ try:
     ok = (rc0 == 0 and rc1 != 0 and res["builds"] and all(v == "pass" for v in tests.values()))
     res["confirmed"] = ok
     if ok:
-        dst = "/verif/seeded/%s-%s" % (pid, var)
+        dst = "/verif/seeded/%s-%s" % (pid, dstvar)
         shutil.rmtree(dst, ignore_errors=True)
         os.makedirs(dst + "/demo")
         shutil.copyfile(patch, dst + "/patch.diff")
